@@ -25,6 +25,15 @@ package main
 // deferred closure that is already running.  `C06 deferred <instant> <shape>` gives the
 // model's verdict (must stop / never stops) and what the frames hold; it is compared with what
 // the real evaluation did.
+// Imports of source modules (`W imp body k`: `import mN` / `import mN as aN` / `from mN import vN`
+// through the local importer risor.Eval uses; body = the TOP-LEVEL code of the module, written
+// to a scratch directory per case): the module body runs as a nested eval on the same VM under
+// the importer's context, so a cancellation that arrives while a module body loops, is blocked
+// in a context-aware primitive, or after it started goroutines must stop all of it.  Imports
+// sit in the main code, in functions, callbacks, deferred closures, spawned functions and in
+// other modules.  `C06 imported <instant> <shape>` says what the case has to do with the context
+// a module body is handed (is the main thread inside a module, which threads inherit the
+// module body's context, what an importModule that detaches that context would never stop).
 // Impl model: RisorModel/C06 through the oracle (`C06 run <instant> <shape>`, `C06 rerun
 // <entry> <instant> <shape>` for a used VM): the set of outcomes the model allows for each
 // evaluation (error class of the call | threads that never stop).  Spec: evaluated here on
@@ -41,6 +50,7 @@ import (
 	"errors"
 	"fmt"
 	"os"
+	"path/filepath"
 	"runtime"
 	"sort"
 	"strconv"
@@ -169,10 +179,17 @@ type c06Render struct {
 	flav    []string
 	lines   []string
 	inDefer int // > 0 while the body of a deferred closure is rendered
+	// source modules of the case (`W imp`): name -> top-level code, in order of creation
+	modNames []string
+	mods     map[string]string
+	// the import statement that was emitted last, while nothing else has been emitted since (a
+	// compute step that follows may be rendered as the same import again: served from vm.modules)
+	lastImport string
 }
 
 func (r *c06Render) emit(ind int, s string) {
 	r.lines = append(r.lines, strings.Repeat("  ", ind)+s)
+	r.lastImport = ""
 }
 func (r *c06Render) fl(kind string, n int) int { return r.flForm(kind, n, 0) }
 func (r *c06Render) flForm(kind string, n, form int) int {
@@ -188,6 +205,13 @@ func (r *c06Render) prog(p *c06Prog, tid, ind int) {
 	switch p.kind {
 	case "D":
 	case "C":
+		if imp := r.lastImport; imp != "" && r.fl("ci", 2) == 1 {
+			// importing the same module again: it is served from vm.modules, its top-level code
+			// does not run a second time — a terminating step like any other
+			r.emit(ind, imp)
+			r.prog(p.k, tid, ind)
+			return
+		}
 		switch r.fl("c", 3) {
 		case 0:
 			r.emit(ind, "1 + 1")
@@ -319,6 +343,36 @@ func (r *c06Render) prog(p *c06Prog, tid, ind int) {
 		r.emit(ind, "}()")
 		r.prog(p.k, tid, ind)
 	case "W":
+		if p.arg == "imp" {
+			// `import` of a source module that has not been imported yet: the body is the module's
+			// top-level code (a file of its own in the case's module directory)
+			r.n++
+			n := strconv.Itoa(r.n)
+			name := "m" + n
+			saved, savedDefer := r.lines, r.inDefer
+			r.lines, r.inDefer = nil, 0
+			r.emit(0, "v"+n+" := "+n)
+			r.prog(p.body, tid, 0)
+			if r.mods == nil {
+				r.mods = map[string]string{}
+			}
+			r.mods[name] = strings.Join(r.lines, "\n") + "\n"
+			r.modNames = append(r.modNames, name)
+			r.lines, r.inDefer = saved, savedDefer
+			stmt := ""
+			switch r.fl("i", 3) {
+			case 0:
+				stmt = "import " + name
+			case 1:
+				stmt = "import " + name + " as a" + n
+			default:
+				stmt = "from " + name + " import v" + n
+			}
+			r.emit(ind, stmt)
+			r.lastImport = stmt
+			r.prog(p.k, tid, ind)
+			return
+		}
 		if p.arg == "fn" {
 			// a plain script call: the callee is a function frame of its own
 			r.n++
@@ -555,7 +609,8 @@ func c06WfIn(p *c06Prog, inFn bool) bool {
 		if p.arg == "hd" && !c06ComputeOnly(p.body) {
 			return false
 		}
-		return c06WfIn(p.body, true) && c06WfIn(p.k, inFn)
+		// the top-level code of a module is not a function body
+		return c06WfIn(p.body, p.arg != "imp") && c06WfIn(p.k, inFn)
 	case "G":
 		return c06WfIn(p.body, false) && c06WfIn(p.k, inFn)
 	case "E":
@@ -805,13 +860,227 @@ func c06EvalDeferred(e *Env, c c06Case, holder, body, parks string) {
 	if obs == nil || obs.unparked != "" {
 		return
 	}
-	returned := obs.hangAt < 0
+	returned := obs.hangAt != c.fire // (a later evaluation that hangs is judged by c06Eval)
 	e.R.H("deferred_real_evaluation", map[bool]string{true: "returned", false: "did not return"}[returned])
 	if stops != returned {
 		key := c06Key(c, obs.flav)
 		e.R.Mismatch(key+" :: "+strings.ReplaceAll(strings.Join(obs.srcs, " ;; "), "\n", " ⏎ "),
 			map[bool]string{true: "the evaluation returned", false: "the evaluation did not return after the cancellation"}[returned],
 			rep, "deferred closures: the model's verdict for the main thread (must stop / never stops) against the real evaluation")
+	}
+}
+
+// ---- imports of source modules: the top-level code of a module runs under the importer's context ----
+
+// c06ImportSplit turns a stretch of the code that starts at q into the top-level code of a
+// module: the first j steps of q (along its continuation chain) become the module body, the
+// import statement stands in their place, the rest follows it.
+func c06ImportSplit(r *RNG, q *c06Prog) *c06Prog {
+	var chain []*c06Prog
+	for n := q; ; n = n.k {
+		chain = append(chain, n)
+		if n.kind == "D" || n.kind == "S" {
+			break
+		}
+	}
+	j := 1 + r.Intn(len(chain))
+	if r.Chance(50) {
+		j = len(chain) // everything that is left runs as the module body (it parks in there)
+	}
+	var body, rest *c06Prog = c06Done, c06Done
+	if j < len(chain) {
+		rest = chain[j]
+	}
+	for i := j - 1; i >= 0; i-- {
+		n := *chain[i]
+		if n.kind == "D" || n.kind == "S" {
+			body = &n
+			continue
+		}
+		n.k = body
+		body = &n
+	}
+	return c06W("imp", body, rest)
+}
+
+// c06AddImports: with probability pct at every point of the shape (main code, callbacks, script
+// calls, deferred closures, spawned functions, module bodies), what follows becomes — in part or
+// as a whole — the top-level code of a module that is imported there.  Nothing is imported under
+// a detached callee context or directly where the model has no import (c06Wf decides).
+func c06AddImports(r *RNG, p *c06Prog, pct int, det bool) *c06Prog {
+	if p == nil {
+		return nil
+	}
+	q := *p
+	switch q.kind {
+	case "C", "B":
+		q.k = c06AddImports(r, q.k, pct, det)
+	case "W":
+		q.body = c06AddImports(r, q.body, pct, det || q.arg == "hd")
+		q.k = c06AddImports(r, q.k, pct, det)
+	case "E":
+		q.body = c06AddImports(r, q.body, pct, det)
+		q.k = c06AddImports(r, q.k, pct, det)
+	case "G":
+		q.body = c06AddImports(r, q.body, pct, det)
+		q.k = c06AddImports(r, q.k, pct, det)
+	}
+	if !det && q.kind != "D" && q.kind != "E" && r.Chance(pct) {
+		return c06ImportSplit(r, &q)
+	}
+	return &q
+}
+
+func c06HasImport(p *c06Prog) bool {
+	has := false
+	p.walk(func(q *c06Prog, _ int) { has = has || (q.kind == "W" && q.arg == "imp") }, 0)
+	return has
+}
+
+// what the top-level code of the imported module does
+var c06ModuleBodies = []struct {
+	name string
+	mk   func(r *RNG) *c06Prog
+}{
+	{"blocks in a receive", func(r *RNG) *c06Prog { return c06B("recv", c06Done) }},
+	{"blocks in a send, then loops", func(r *RNG) *c06Prog { return c06B("send", c06S()) }},
+	{"sleeps", func(r *RNG) *c06Prog { return c06B("sleep", c06C(c06Done)) }},
+	{"waits for a thread", func(r *RNG) *c06Prog { return c06B("wait", c06Done) }},
+	{"ranges over a channel", func(r *RNG) *c06Prog { return c06B("next", c06C(c06Done)) }},
+	{"loops", func(r *RNG) *c06Prog { return c06C(c06S()) }},
+	{"starts a goroutine that blocks, then blocks itself", func(r *RNG) *c06Prog {
+		return c06G(c06B(Pick(r, c06Prims), c06Done), c06B(Pick(r, []string{"recv", "send", "sleep", "wait"}), c06Done))
+	}},
+	{"starts a goroutine whose channel operations never wait, and returns", func(r *RNG) *c06Prog {
+		return c06G(&c06Prog{kind: "B", arg: Pick(r, []string{"recv", "send"}), form: 3 + r.Intn(2), k: c06Done}, c06C(c06Done))
+	}},
+	{"starts goroutines two deep (worker pool), and returns", func(r *RNG) *c06Prog {
+		return c06G(c06G(&c06Prog{kind: "B", arg: "recv", form: 3, k: c06Done}, c06B(Pick(r, c06Prims), c06Done)), c06G(c06B("sleep", c06B("recv", c06Done)), c06Done))
+	}},
+	{"starts a goroutine inside a callback, then loops in a callback", func(r *RNG) *c06Prog {
+		return c06W(Pick(r, c06Wraps), c06G(c06B(Pick(r, c06Prims), c06Done), c06Done), c06W(Pick(r, c06Wraps), c06S(), c06Done))
+	}},
+	{"imports a further module that blocks", func(r *RNG) *c06Prog {
+		return c06C(c06W("imp", c06G(c06B("recv", c06Done), c06B(Pick(r, c06Prims), c06Done)), c06Done))
+	}},
+	{"calls a function that holds a deferred loop and blocks", func(r *RNG) *c06Prog {
+		return c06F(c06E(c06S(), c06B(Pick(r, []string{"recv", "send", "wait"}), c06Done)), c06Done)
+	}},
+	{"defines things and returns", func(r *RNG) *c06Prog { return c06C(c06C(c06Done)) }},
+}
+
+// where the import statement sits
+var c06ImportSites = []struct {
+	name string
+	mk   func(r *RNG, imp *c06Prog) *c06Prog
+}{
+	{"main code", func(r *RNG, imp *c06Prog) *c06Prog { return imp }},
+	{"main code, after a prefix", func(r *RNG, imp *c06Prog) *c06Prog { return c06C(imp) }},
+	{"a function", func(r *RNG, imp *c06Prog) *c06Prog { return c06F(imp, c06S()) }},
+	{"the callback of a builtin", func(r *RNG, imp *c06Prog) *c06Prog { return c06W(Pick(r, c06Wraps), imp, c06S()) }},
+	{"the callback of a host builtin (context cancelled with the run's)", func(r *RNG, imp *c06Prog) *c06Prog { return c06W("hf", imp, c06S()) }},
+	{"a spawned function", func(r *RNG, imp *c06Prog) *c06Prog { return c06G(imp, c06S()) }},
+	{"a function spawned by a spawned function", func(r *RNG, imp *c06Prog) *c06Prog {
+		return c06G(c06G(imp, c06B(Pick(r, c06Prims), c06Done)), c06B(Pick(r, c06Prims), c06S()))
+	}},
+	{"the top-level code of another module", func(r *RNG, imp *c06Prog) *c06Prog { return c06W("imp", c06C(imp), c06S()) }},
+	{"a deferred closure", func(r *RNG, imp *c06Prog) *c06Prog { return c06F(c06E(imp, c06C(c06Done)), c06S()) }},
+	// reached only AFTER the cancellation: the importer parses the module with the same context and
+	// fails with its error — no module body starts any more, also on a clone VM without a watcher
+	{"a spawned function, after a sleep / a range over a channel that the cancellation ends", func(r *RNG, imp *c06Prog) *c06Prog {
+		return c06G(c06B(Pick(r, []string{"sleep", "next"}), c06C(imp)), c06S())
+	}},
+	{"main code, after a failed wait that try() swallowed", func(r *RNG, imp *c06Prog) *c06Prog {
+		return c06W("try", c06B(Pick(r, []string{"recv", "send", "wait"}), c06Done), imp)
+	}},
+	{"a function that holds a deferred loop", func(r *RNG, imp *c06Prog) *c06Prog { return c06F(c06E(c06S(), imp), c06S()) }},
+}
+
+// what follows the import statement
+var c06ImportConts = []func() *c06Prog{
+	func() *c06Prog { return c06Done },
+	func() *c06Prog { return c06C(c06Done) },
+	func() *c06Prog { return c06S() },
+	func() *c06Prog { return c06C(c06S()) },
+	func() *c06Prog { return c06B("recv", c06Done) },
+}
+
+type c06ImportCase struct {
+	prog       *c06Prog
+	site, body string
+}
+
+func c06ImportSystematic(r *RNG) []c06ImportCase {
+	var out []c06ImportCase
+	for _, site := range c06ImportSites {
+		for _, body := range c06ModuleBodies {
+			p := site.mk(r, c06W("imp", body.mk(r), Pick(r, c06ImportConts)()))
+			if c06Wf(p) {
+				out = append(out, c06ImportCase{p, site.name, body.name})
+			}
+		}
+	}
+	return out
+}
+
+// c06EvalImported: what the case has to do with the context its module bodies are handed
+// (`C06 imported`) next to the ordinary evaluation; the model's verdict for the main thread
+// (must stop / never stops) is compared with what the real evaluation did.
+func c06EvalImported(e *Env, c c06Case, site, body string) {
+	at := c.stages[c.fire].prog
+	n := 0
+	q := c06Clone(at)
+	q.number(&n)
+	// thread ids of the stage at which the context fires are numbered after those of the earlier stages
+	base := 0
+	for i := 0; i < c.fire; i++ {
+		c06Clone(c.stages[i].prog).number(&base)
+	}
+	rep := e.O.Ask("C06", "imported", c.instant, q.String())
+	f := strings.Split(rep, "\t")
+	if len(f) != 7 || f[0] != "ok" {
+		e.R.Mismatch(q.String(), "-", rep, "oracle rejected the shape (imported)")
+		return
+	}
+	val := func(i int, name string) string { return strings.TrimPrefix(f[i], name+"=") }
+	inImport, stops, stopsDet := val(2, "main_in_import") == "1", val(3, "stops") == "1", val(4, "stops_detached") == "1"
+	shift := func(ids string) string {
+		if ids == "-" {
+			return "none"
+		}
+		var out []string
+		for _, s := range strings.Split(ids, ",") {
+			if v, err := strconv.Atoi(s); err == nil {
+				out = append(out, strconv.Itoa(v+base))
+			}
+		}
+		return strings.Join(out, ",")
+	}
+	inherit, never := shift(val(5, "inherit")), shift(val(6, "never_detached"))
+	sensitive := (stops && !stopsDet) || never != "none"
+	c.importInfo = fmt.Sprintf("the case imports source modules: when the context fired the main thread was %s the top-level code of a module; thread(s) started by module code (they inherit the context the module body was handed): %s; "+
+		"the model (Risor.C06.import_body_blocked_unblocks, C06_partial_import; tie import_body_runs_under_importers_ctx_tie) says a module body runs under the importer's own context: main must stop=%v; "+
+		"under an importModule that hands the body a context which is not cancelled with the run's (Risor.C06.importDetached_not_stopped, inherited_ctx_never_fires_never_stops) main would stop=%v and thread(s) %s would never end",
+		map[bool]string{true: "inside", false: "outside"}[inImport], inherit, stops, stopsDet, never)
+	e.R.H("import_site", site)
+	e.R.H("import_module_body", body)
+	e.R.H("import_main_thread_at_cancellation", map[bool]string{true: "inside the top-level code of a module", false: "outside"}[inImport]+" ("+c.instant+")")
+	e.R.H("import_threads_inheriting_a_module_body's_context", map[bool]string{true: "none", false: ">=1"}[inherit == "none"])
+	e.R.H("import_outcome_depends_on_the_context_handed_to_the_module_body", map[bool]string{true: "yes", false: "no"}[sensitive])
+	e.R.H("import_model_verdict", map[bool]string{true: "must stop", false: "never stops"}[stops])
+	obs := c06Eval(e, c)
+	if obs == nil || obs.unparked != "" {
+		return
+	}
+	// the verdict is about the evaluation during which the context fired; a LATER evaluation that
+	// does not return (RunCode with the fired context: the recorded reset race) is judged by c06Eval
+	returned := obs.hangAt != c.fire
+	e.R.H("import_real_evaluation", map[bool]string{true: "returned", false: "did not return"}[returned])
+	if stops != returned {
+		key := c06Key(c, obs.flav)
+		e.R.Mismatch(key+" :: "+strings.ReplaceAll(strings.Join(obs.srcs, " ;; "), "\n", " ⏎ ")+" ;; "+obs.mods,
+			map[bool]string{true: "the evaluation returned", false: "the evaluation did not return after the cancellation"}[returned],
+			rep, "imports: the model's verdict for the main thread (must stop / never stops) against the real evaluation")
 	}
 }
 
@@ -838,6 +1107,9 @@ type c06Case struct {
 	// set for the deferred-closure cases: what the model says about the frames at the instant of
 	// the cancellation (added to the detail of a Spec violation)
 	deferInfo string
+	// set for the import cases: what the model says about the context the module bodies of the case
+	// are handed (added to the detail of a Spec violation)
+	importInfo string
 }
 
 func c06Single(p *c06Prog, instant, kind string, delay int, flavSeed uint64) c06Case {
@@ -865,6 +1137,7 @@ type c06Obs struct {
 	stuckGor int
 	srcs     []string
 	flav     string
+	mods     string // the source modules of the case: "module mN: <top-level code>" ...
 }
 
 func c06ParseReply(rep string) (m c06Model, ok bool) {
@@ -1055,7 +1328,28 @@ func c06Run(c c06Case, nThreads int, models []c06Model, accept func([]string, []
 		return object.Nil
 	})
 
-	cfg := risor.NewConfig(risor.WithConcurrency(), risor.WithGlobals(map[string]any{"tick": tick, "mark": mark, "hold": hold, "reg": reg, "hcb": hcb}))
+	cfgOpts := []risor.Option{risor.WithConcurrency(), risor.WithGlobals(map[string]any{"tick": tick, "mark": mark, "hold": hold, "reg": reg, "hcb": hcb})}
+	if len(rd.modNames) > 0 {
+		// the source modules of the case, in a scratch directory of their own, reached through the
+		// local importer exactly as risor.Eval / the CLI set it up (risor.WithLocalImporter)
+		dir, err := os.MkdirTemp("", "verif-c06-mod-")
+		if err != nil {
+			obs.cls[0], obs.errText[0] = "other", "harness: module directory: "+err.Error()
+			return
+		}
+		defer os.RemoveAll(dir)
+		var parts []string
+		for _, name := range rd.modNames {
+			if err := os.WriteFile(filepath.Join(dir, name+".risor"), []byte(rd.mods[name]), 0o644); err != nil {
+				obs.cls[0], obs.errText[0] = "other", "harness: module file: "+err.Error()
+				return
+			}
+			parts = append(parts, "module "+name+": "+strings.ReplaceAll(strings.TrimSpace(rd.mods[name]), "\n", " ⏎ "))
+		}
+		obs.mods = strings.Join(parts, " ;; ")
+		cfgOpts = append(cfgOpts, risor.WithLocalImporter(dir))
+	}
+	cfg := risor.NewConfig(cfgOpts...)
 	codes := make([]*compiler.Code, nSt)
 	for i, st := range c.stages {
 		if st.entry == "call" {
@@ -1383,8 +1677,26 @@ func c06In(xs []string, x string) bool {
 // c06Agree: does stage i's observation (error class | its threads still running) match the
 // model?  2 = an outcome of the armed watcher, 1 = only an outcome of the RunCode reset
 // race (watcher store wiped), 0 = neither.
-func c06Agree(m c06Model, cls string, run []int, last bool) (int, string) {
+//
+// sampled = false: a LATER evaluation of the sequence did not return, so no tick counters were
+// sampled at all (c06Run samples only once every evaluation is over): for the stages before it
+// only the error class can be compared.
+func c06Agree(m c06Model, cls string, run []int, last, sampled bool) (int, string) {
 	out := cls + "|" + c06Ids(run, m.lo, m.hi, last)
+	if !sampled && cls != "hang" {
+		out = cls + "|(threads not sampled)"
+		for _, o := range m.outs {
+			if strings.HasPrefix(o, cls+"|") {
+				return 2, out
+			}
+		}
+		for _, o := range m.lost {
+			if strings.HasPrefix(o, cls+"|") {
+				return 1, out
+			}
+		}
+		return 0, out
+	}
 	if c06In(m.outs, out) {
 		return 2, out
 	}
@@ -1400,6 +1712,49 @@ func c06Agree(m c06Model, cls string, run []int, last bool) (int, string) {
 		}
 	}
 	return 0, out
+}
+
+// c06ChildAsDetached: the shapes of the stages with every host callback that was handed a
+// WithCancel CHILD of the caller's context (rendering flavour hf1) turned into one that was handed
+// a detached context.  Go cancels the children of a context inside parent.cancel(), AFTER it has
+// closed the parent's Done channel: the watcher can raise the halt flag, and a poll of the callback
+// can consult the child, before the child reports an error.  For that one poll the child IS a
+// context that does not report the cancellation, and the outcomes are those of the detached
+// callee context (the recorded finding about eval's halt test returning the callee's ctx.Err()).
+func c06ChildAsDetached(stages []c06Stage, flav string) ([]*c06Prog, bool) {
+	var kinds []byte
+	for i := 0; i+2 < len(flav); i++ {
+		if flav[i] == 'h' && flav[i+1] == 'f' && flav[i+2] >= '0' && flav[i+2] <= '9' {
+			kinds = append(kinds, flav[i+2])
+		}
+	}
+	next, changed := 0, false
+	var walk func(p *c06Prog)
+	walk = func(p *c06Prog) { // the order in which c06Render.prog draws the flavours
+		switch p.kind {
+		case "C", "B":
+			walk(p.k)
+		case "W":
+			if p.arg == "hf" {
+				if next < len(kinds) && kinds[next] == '1' {
+					p.arg = "hd"
+					changed = true
+				}
+				next++
+			}
+			walk(p.body)
+			walk(p.k)
+		case "E", "G":
+			walk(p.body)
+			walk(p.k)
+		}
+	}
+	out := make([]*c06Prog, len(stages))
+	for i, st := range stages {
+		out[i] = c06Clone(st.prog)
+		walk(out[i])
+	}
+	return out, changed && next == len(kinds)
 }
 
 func c06Eval(e *Env, c c06Case) *c06Obs {
@@ -1448,7 +1803,7 @@ func c06Eval(e *Env, c c06Case) *c06Obs {
 			if cls[i] == "-" {
 				continue
 			}
-			if a, _ := c06Agree(m, cls[i], run, i == l); a == 0 {
+			if a, _ := c06Agree(m, cls[i], run, i == l, true); a == 0 {
 				return false
 			}
 		}
@@ -1464,6 +1819,9 @@ func c06Eval(e *Env, c c06Case) *c06Obs {
 			parts = append(parts, fmt.Sprintf("stage%d %s: %s", i, st.entry, strings.ReplaceAll(obs.srcs[i], "\n", " ⏎ ")))
 		}
 		srcText = strings.Join(parts, " ;; ")
+	}
+	if obs.mods != "" {
+		srcText += " ;; " + obs.mods
 	}
 	caseText := key + " :: " + srcText
 
@@ -1505,7 +1863,7 @@ func c06Eval(e *Env, c c06Case) *c06Obs {
 			case "B":
 				e.R.H("constructs", "block:"+p.arg)
 			case "W":
-				e.R.H("constructs", "callback:"+map[string]string{"hf": "host builtin, context cancelled with the run's", "hd": "host builtin, detached context", "fn": "script call"}[p.arg]+map[bool]string{true: p.arg}[p.arg != "hf" && p.arg != "hd" && p.arg != "fn"])
+				e.R.H("constructs", "callback:"+map[string]string{"hf": "host builtin, context cancelled with the run's", "hd": "host builtin, detached context", "fn": "script call", "imp": "import (top-level code of a source module)"}[p.arg]+map[bool]string{true: p.arg}[p.arg != "hf" && p.arg != "hd" && p.arg != "fn" && p.arg != "imp"])
 			case "S":
 				e.R.H("constructs", "spin")
 			case "E":
@@ -1539,6 +1897,11 @@ func c06Eval(e *Env, c c06Case) *c06Obs {
 		}
 	}
 
+	for f, name := range map[string]string{"i0": "import m", "i1": "import m as a", "i2": "from m import v", "ci1": "the same module imported again (served from vm.modules)"} {
+		if strings.Contains(obs.flav, f) {
+			e.R.H("import_statement_form", name)
+		}
+	}
 	for f, name := range map[string]string{"ds0": "compute loop", "ds1": "polling loop with time.sleep", "ds2": "retry loop (try + error)", "ds3": "retried wait on a channel nobody feeds", "ds4": "polling a condition that never holds"} {
 		if strings.Contains(obs.flav, f) {
 			e.R.H("deferred_loop_form", name)
@@ -1566,7 +1929,32 @@ func c06Eval(e *Env, c c06Case) *c06Obs {
 			e.R.Mismatch(caseText, where+"error "+obs.errText[i], strings.Join(m.outs, ";"), "unexpected error from the real code")
 			return &obs
 		}
-		agree, goOut := c06Agree(m, obs.cls[i], obs.ticking, i == l)
+		agree, goOut := c06Agree(m, obs.cls[i], obs.ticking, i == l, obs.hangAt < 0)
+		forceAlt := os.Getenv("VERIF_C06_FORCE_ALT") != "" // development aid: exercise the path below on every hf1 case
+		if (agree == 0 || forceAlt) && obs.cls[i] != "hang" && strings.Contains(obs.flav, "hf1") {
+			// a poll may have consulted a WithCancel child before Go had cancelled it (see
+			// c06ChildAsDetached): the outcomes of the detached callee context are allowed, and a
+			// Spec violation among them belongs to the recorded finding about the callee's context
+			if alts, ok := c06ChildAsDetached(c.stages, obs.flav); ok && c06Wf(alts[i]) {
+				var rep string
+				if i == 0 {
+					rep = e.O.Ask("C06", "run", m.instant, alts[i].String())
+				} else {
+					rep = e.O.Ask("C06", "rerun", c.stages[i].entry, m.instant, alts[i].String())
+				}
+				if am, ok := c06ParseReply(rep); ok {
+					am.instant, am.lo, am.hi = m.instant, m.lo, m.hi
+					a2, _ := c06Agree(am, obs.cls[i], obs.ticking, i == l, obs.hangAt < 0)
+					if forceAlt {
+						e.R.H("forced_alt(development aid)", fmt.Sprintf("alt model ok, original agrees=%d, alt agrees=%d", agree, a2))
+					}
+					if agree == 0 && a2 == 2 {
+						e.R.H("child_context_consulted_before_go_had_cancelled_it(race)", goOut)
+						m, agree = am, 2
+					}
+				}
+			}
+		}
 		e.R.H("outcome", goOut)
 		e.R.H("allowed_outcomes", strconv.Itoa(len(m.outs)))
 		if agree == 0 {
@@ -1585,6 +1973,9 @@ func c06Eval(e *Env, c c06Case) *c06Obs {
 			if c.deferInfo != "" {
 				detail += " — " + c.deferInfo
 			}
+			if c.importInfo != "" {
+				detail += " — " + c.importInfo
+			}
 			if agree == 1 {
 				c06Proposed(e, c06FindReset, caseText, detail+" — RunCode on a used VM with a context that had already fired: resetForNewCode() cleared the halt flag the new watcher had just set")
 			} else {
@@ -1592,7 +1983,11 @@ func c06Eval(e *Env, c c06Case) *c06Obs {
 			}
 		}
 		if ids := c06Ids(obs.ticking, m.lo, m.hi, i == l); ids != "" {
-			e.R.Spec(caseText, fmt.Sprintf("%sscript code keeps executing after the call returned %s: tick counters of thread(s) %s advance across three samples", where, obs.cls[i], ids), attr(c06FindLeak, 0))
+			detail := fmt.Sprintf("%sscript code keeps executing after the call returned %s: tick counters of thread(s) %s advance across three samples", where, obs.cls[i], ids)
+			if c.importInfo != "" {
+				detail += " — " + c.importInfo
+			}
+			e.R.Spec(caseText, detail, attr(c06FindLeak, 0))
 		}
 		if m.nonterm && i >= c.fire && obs.cls[i] != "hang" {
 			switch obs.cls[i] {
@@ -1632,7 +2027,11 @@ func c06Eval(e *Env, c c06Case) *c06Obs {
 	}
 	if obs.stuckGor > 0 {
 		e.R.Mismatch(caseText, fmt.Sprintf("%d goroutine(s) still alive after the host ended every loop and the settle limit", obs.stuckGor), "all threads finished", "goroutine count did not settle")
-		e.R.Spec(caseText, fmt.Sprintf("%d goroutine(s) started by the evaluation are still alive after every context was cancelled, every loop was ended by the host and %s had passed", obs.stuckGor, "the settle limit (3 s; 300 ms once three cases were stuck)"), "")
+		detail := fmt.Sprintf("%d goroutine(s) started by the evaluation are still alive after every context was cancelled, every loop was ended by the host and %s had passed", obs.stuckGor, "the settle limit (3 s; 300 ms once three cases were stuck)")
+		if c.importInfo != "" {
+			detail += " — " + c.importInfo
+		}
+		e.R.Spec(caseText, detail, "")
 	}
 	return &obs
 }
@@ -1830,6 +2229,12 @@ func c06_runC06(e *Env) {
 		"two deferred closures, the deferred closure itself already running, a frame inside a running deferred closure, a spawned function} x {what the deferred closure does: unbounded loop (rendered as compute loop, polling loop with time.sleep, " +
 		"retry loop, retried wait on a channel nobody feeds, polling a condition), loop after a failed wait / a sleep / a try, a blocked receive, a loop inside each, a terminating cleanup, a script call holding a deferred loop of its own} x " +
 		"{what the code is doing when the context fires: loop, receive, sleep, wait, send} and seeded random nestings of function frames up to 4 deep with 0..2 deferred closures each; " +
+		"imports of source modules through the local importer (the module's top-level code is a file of the case's scratch module directory; import m / import m as a / from m import v / the same module again): fixed witnesses, the systematic product " +
+		"{where the import statement sits: main code, a function, the callback of a builtin / of a host builtin, a spawned function (depth 1, 2), the top-level code of another module, a deferred closure, a function holding a deferred loop, " +
+		"code reached only after the cancellation — behind a sleep / range / swallowed wait: the importer's parser observes the fired context, the import fails, no module body starts} x " +
+		"{what the module's top-level code does: blocks in receive / send / sleep / wait / range, loops, starts goroutines (blocked, with channel operations that never wait, two deep, from inside a callback) and blocks or returns, imports a further module, " +
+		"calls a function with a deferred loop, just defines things} x {what follows the import}, seeded random shapes of every other class in which random stretches of code (main code, callbacks, functions, deferred closures, spawned functions) are moved into modules imported there, " +
+		"and sequences on one VM whose earlier evaluations imported modules; " +
 		"sequences: systematic {same context re-supplied after it fired while the VM was idle, retry after a cancelled evaluation, cancellation during the n-th evaluation, another live context first} x {Call, RunCode} x parking actions, and seeded random ones; " +
 		"instants: context already fired before the start, fired while every thread is parked (logical sync on tick/mark counters) or after the main code returned; context kinds: cancel(), own deadline reached, " +
 		"cancel() of a context whose own / inherited / wrapped deadline is far away, cancel() of the parent; " +
@@ -2110,6 +2515,126 @@ func c06_runC06(e *Env) {
 			kind = "deadline"
 		}
 		c06EvalDeferred(e, mk(p, instant, kind), "random nesting", "random", "random")
+	}
+	// 9. imports of source modules: the top-level code of a module runs as a nested eval under the
+	// importer's context — fixed witnesses, the systematic product {where the import sits} x {what
+	// the module body does} x {what follows}, random shapes of the other classes with stretches of
+	// code moved into imported modules, sequences on one VM
+	rform := func(prim string, form int) *c06Prog { return &c06Prog{kind: "B", arg: prim, form: form, k: c06Done} }
+	importFixed := []struct {
+		c          c06Case
+		site, body string
+	}{
+		{c06Single(c06W("imp", c06B("recv", c06Done), c06Done), "later", "cancel", 0, 1), "main code", "blocks in a receive"},
+		{c06Single(c06W("imp", c06B("recv", c06Done), c06Done), "later", "deadline", 0, 2), "main code", "blocks in a receive"},
+		{c06Single(c06W("imp", c06B("sleep", c06C(c06Done)), c06S()), "later", "far", 0, 3), "main code", "sleeps"},
+		{c06Single(c06W("imp", c06B("wait", c06Done), c06Done), "later", "child", 0, 1), "main code", "waits for a thread"},
+		{c06Single(c06W("imp", c06B("send", c06Done), c06S()), "later", "parent", 0, 2), "main code", "blocks in a send"},
+		{c06Single(c06W("imp", c06B("next", c06C(c06Done)), c06S()), "later", "cancel", 0, 3), "main code", "ranges over a channel"},
+		{c06Single(c06W("imp", c06C(c06S()), c06Done), "later", "cancel", 0, 1), "main code", "loops"},
+		{c06Single(c06W("imp", c06C(c06S()), c06Done), "pre", "cancel", 0, 1), "main code", "loops"},
+		// the module body starts goroutines and returns; the importer goes on and is stopped by the poll
+		{c06Single(c06W("imp", c06G(rform("recv", 3), c06C(c06Done)), c06S()), "later", "cancel", 0, 1), "main code", "starts a goroutine whose channel operations never wait, and returns"},
+		{c06Single(c06W("imp", c06G(rform("send", 4), c06C(c06Done)), c06S()), "later", "deadline", 0, 2), "main code", "starts a goroutine whose channel operations never wait, and returns"},
+		{c06Single(c06W("imp", c06G(rform("recv", 4), c06G(c06B("recv", c06Done), c06Done)), c06B("sleep", c06S())), "later", "cancel", 0, 3), "main code", "starts goroutines and returns"},
+		{c06Single(c06W("imp", c06G(c06G(rform("send", 3), c06B("recv", c06Done)), c06B("recv", c06Done)), c06Done), "later", "cancel", 0, 4), "main code", "starts goroutines two deep, then blocks itself"},
+		{c06Single(c06W("imp", c06C(c06W("imp", c06B("recv", c06Done), c06Done)), c06Done), "later", "cancel", 0, 1), "the top-level code of another module", "blocks in a receive"},
+		{c06Single(c06F(c06W("imp", c06B("send", c06Done), c06Done), c06S()), "later", "cancel", 0, 1), "a function", "blocks in a send"},
+		{c06Single(c06G(c06W("imp", c06B("recv", c06Done), c06Done), c06S()), "later", "cancel", 0, 1), "a spawned function", "blocks in a receive"},
+		{c06Single(c06G(c06W("imp", c06G(rform("recv", 3), c06Done), c06B("wait", c06Done)), c06B("recv", c06Done)), "later", "cancel", 0, 2), "a spawned function", "starts a goroutine whose channel operations never wait, and returns"},
+		{c06Single(c06W("try", c06W("imp", c06B("recv", c06Done), c06Done), c06S()), "later", "cancel", 0, 1), "the callback of a builtin", "blocks in a receive"},
+		{c06Single(c06F(c06E(c06S(), c06W("imp", c06B("recv", c06Done), c06Done)), c06Done), "later", "cancel", 0, 1), "a function that holds a deferred loop", "blocks in a receive"},
+		// an import statement reached only after the cancellation (the importer's parser observes the context)
+		{c06Single(c06G(c06B("sleep", c06W("imp", c06C(c06S()), c06Done)), c06S()), "later", "cancel", 0, 1), "a spawned function, after a sleep / a range over a channel that the cancellation ends", "loops"},
+		{c06Single(c06G(c06B("next", c06C(c06W("imp", c06G(c06S(), c06S()), c06Done))), c06B("recv", c06Done)), "later", "deadline", 0, 2), "a spawned function, after a sleep / a range over a channel that the cancellation ends", "starts a goroutine and loops"},
+		{c06Single(c06B("sleep", c06W("imp", c06S(), c06Done)), "later", "cancel", 0, 1), "main code, after a sleep that the cancellation ends", "loops"},
+		{c06Single(c06W("try", c06B("recv", c06Done), c06W("imp", c06B("recv", c06Done), c06Done)), "later", "far", 0, 1), "main code, after a failed wait that try() swallowed", "blocks in a receive"},
+		{c06Single(c06G(c06W("imp", c06S(), c06Done), c06W("imp", c06C(c06Done), c06S())), "pre", "cancel", 0, 1), "a spawned function", "loops"},
+		// on a VM that has been used before
+		{c06Case{stages: []c06Stage{{prog: c06W("imp", c06C(c06Done), c06C(c06Done)), entry: "run"}, {prog: c06W("imp", c06G(c06B("recv", c06Done), c06B("recv", c06Done)), c06Done), entry: "call"}}, fire: 1, instant: "later", ctxKind: "cancel", flavSeed: 1}, "a function", "starts a goroutine that blocks, then blocks itself"},
+		{c06Case{stages: []c06Stage{{prog: c06C(c06Done), entry: "run", own: true}, {prog: c06W("imp", c06B("sleep", c06B("recv", c06Done)), c06Done), entry: "runcode"}, {prog: c06W("imp", c06S(), c06Done), entry: "runcode"}}, fire: 1, instant: "later", ctxKind: "cancel", flavSeed: 2}, "main code", "sleeps"},
+	}
+	for _, d := range importFixed {
+		c := d.c
+		c06Normalise(&c)
+		c06EvalImported(e, c, d.site, d.body)
+	}
+	importSys := c06ImportSystematic(rng)
+	nImpSys, nImpRand, nImpSeq := 60, 45, 12
+	if !e.Quick {
+		nImpSys, nImpRand, nImpSeq = 3*len(importSys), 700, 150
+	}
+	for i := 0; i < nImpSys; i++ {
+		var d c06ImportCase
+		if e.Quick {
+			d = importSys[rng.Intn(len(importSys))]
+		} else {
+			d = importSys[i%len(importSys)]
+		}
+		instant, kind := "later", "cancel"
+		if rng.Chance(12) {
+			instant = "pre"
+		}
+		if rng.Chance(20) {
+			kind = "deadline"
+		}
+		c06EvalImported(e, mk(c06Clone(d.prog), instant, kind), d.site, d.body)
+	}
+	for i := 0; i < nImpRand; i++ {
+		var p *c06Prog
+		switch rng.Intn(5) {
+		case 0, 1, 2:
+			p = c06Thread(rng, 0, 3, rng.Chance(12))
+		case 3:
+			p = c06DeferRandom(rng, 0)
+		default:
+			p = c06HostRandom(rng)
+		}
+		p = c06AddImports(rng, p, 22, false)
+		if !c06HasImport(p) {
+			p = c06ImportSplit(rng, p)
+		}
+		if !c06Wf(p) {
+			e.R.H("import_shapes_outside_the_model(skipped)", "1")
+			continue
+		}
+		instant, kind := "later", "cancel"
+		if rng.Chance(20) {
+			instant = "pre"
+		}
+		if rng.Chance(20) {
+			kind = "deadline"
+		}
+		c06EvalImported(e, mk(p, instant, kind), "random position", "random stretch of code")
+	}
+	for i := 0; i < nImpSeq; i++ {
+		d := importSys[rng.Intn(len(importSys))]
+		var after []*c06Prog
+		if rng.Chance(40) {
+			after = append(after, c06AddImports(rng, c06Thread(rng, 0, 2, rng.Chance(15)), 30, false))
+		}
+		instant := "later"
+		if rng.Chance(25) {
+			instant = "pre"
+		}
+		c := c06Sequence(rng, 1+rng.Intn(2), c06Clone(d.prog), instant, after, 60)
+		ok := true
+		for j := range c.stages {
+			if j < c.fire {
+				// earlier evaluations on the VM import modules of their own (they end by themselves)
+				c.stages[j].prog = c06AddImports(rng, c.stages[j].prog, 35, false)
+			}
+			ok = ok && c06Wf(c.stages[j].prog)
+		}
+		if !ok {
+			e.R.H("import_shapes_outside_the_model(skipped)", "1")
+			continue
+		}
+		c.ctxKind = kindOf("cancel")
+		c.delayMs = delay()
+		c.flavSeed = rng.Next()
+		c06Normalise(&c)
+		c06EvalImported(e, c, d.site+" (VM used before)", d.body)
 	}
 	// 6. the RunCode reset race, directly
 	c06ProbeReset(e, probe)
